@@ -152,10 +152,21 @@ type options struct {
 // is far above what real types need; it is kept low because every level wraps the error of the level below.
 const maxDecodeDepth = 1000
 
-// maxEncodeDepth is the nesting depth up to which values are encoded. It stays a few levels below maxDecodeDepth: the
-// destination of a Decode call can add levels of its own (a pointer to the value, an interface that holds it), and what
-// Encode accepts has to be decodable.
-const maxEncodeDepth = maxDecodeDepth - 8
+// countsAsNestingLevel returns whether a value of the given type counts as a nesting level for maxDecodeDepth. Encode
+// and Decode have to count the same levels for the same data, however the value is handed over: a pointer to a pointer
+// and an interface value are mere hops on the way to the value they lead to (Decode(&ptr) and Decode(&iface) add such
+// hops in front of what Encode(ptr) encoded), so they are not counted. Every cycle of a recursive type passes through
+// a level that is counted.
+func countsAsNestingLevel(valueType reflect.Type) bool {
+	switch valueType.Kind() {
+	case reflect.Interface:
+		return false
+	case reflect.Ptr:
+		return valueType.Elem().Kind() != reflect.Ptr && valueType.Elem().Kind() != reflect.Interface
+	default:
+		return true
+	}
+}
 
 func (o *options) toMode() serializer.DeSerializationMode {
 	mode := serializer.DeSeriModeNoValidation
